@@ -21,9 +21,10 @@ ASSUMPTIONS = ["scipy.optimize.linprog (HiGHS) solves the transport LP exactly (
 EVAL_COUNTER = "evaluate_calls"
 REQUIRED = {"quick": {"compared": 1500, "registry_compared": 26, "insitu_compared": 100,
                       "compared:kl": 50, "compared:tv": 50, "compared:hellinger": 50, "compared:chi2": 50,
-                      "compared:mmd": 100, "compared:wasserstein": 100, "named_affinity_compared": 700, "mi_alias_compared": 100, "inplace_refresh_calls": 400, "float32_predictions_compared": 60},
+                      "compared:mmd": 100, "compared:wasserstein": 100, "named_affinity_compared": 700, "mi_alias_compared": 100, "inplace_refresh_calls": 400, "float32_predictions_compared": 60, "clipped_band_compared": 300, "clipped_band_narrow": 150, "clipped_band_compared:mmd": 60},
             "thorough": {"compared": 20000, "registry_compared": 100, "insitu_compared": 2000}}
 SHARD_TIMEOUT = {"quick": 900, "thorough": 5400}
+REPOTESTS = {"thorough": 16}      # the repository's own test-suite, in 16 parts, under the same monitors
 
 
 def cases(tier, seed):
@@ -63,6 +64,7 @@ class State:
                               expected={"kl_ova": v_kl})
         if not _gem.interior(P, gem.epsilon):
             ctx.count("skipped_not_interior")
+            self.clipped_band(gem, P, A, value, dist)
             return
         N, K = P.shape
         if dist == "wasserstein" and N > 16:
@@ -106,6 +108,61 @@ class State:
                           observed={"score": value, "P": P, "class": type(gem).__name__},
                           expected={"reference": ref, "tol": tol},
                           detail={"mode": self.mode, "A": A})
+
+    def clipped_band(self, gem, P, A, value, dist):
+        """Predictions with entries at or beyond the clipping bound (saturated / one-hot rows, a user epsilon).  What the
+        clipping convention does to such a matrix is the library's choice, so the score is held to lie within the band
+        spanned by the reasonable readings of "the GEMINI of these predictions": the reference of the clipped matrix, of
+        the clipped matrix with rows renormalised, and (where finite) of the matrix as given - widened by the width of
+        that band itself.  All three differ by the natural O(K*epsilon) perturbation; a score outside the band is not the
+        documented distance between the cluster conditionals and the data distribution under any reading."""
+        ctx = self.ctx
+        eps = float(gem.epsilon)
+        if not (P.ndim == 2 and P.size and np.all(np.isfinite(P)) and np.all(P >= 0) and np.all(np.abs(P.sum(1) - 1.0) <= 1e-9)):
+            return
+        N, K = P.shape
+        if eps > 0.05 or N * K > 400 or (dist == "wasserstein" and N > 10) or np.size(value) != 1:
+            return
+        if dist in ("mmd", "wasserstein"):
+            if A is None:
+                return
+            A = np.asarray(A, dtype=float)
+            if A.shape != (N, N) or not np.all(np.isfinite(A)) or not np.allclose(A, A.T, rtol=1e-12, atol=1e-12):
+                return
+        Pc = np.clip(P, eps, 1 - eps)
+        refs = []
+        for Q in (Pc, Pc / Pc.sum(1, keepdims=True), P):
+            try:
+                r = float(ref_gemini(dist, bool(gem.ovo), Q, A))
+            except Exception:
+                continue
+            if np.isfinite(r):
+                refs.append(r)
+        if len(refs) < 2:
+            return
+        value = float(np.asarray(value).reshape(-1)[0])
+        lo, hi = min(refs), max(refs)
+        scale = max(1.0, abs(lo), abs(hi))
+        slack = 1e-9 * scale + (hi - lo)
+        if dist == "wasserstein":
+            slack += 1e-7 * max(scale, float(np.max(np.abs(A))))
+        if dist == "mmd":
+            slack += 1e-9 * float(np.sqrt(np.max(np.abs(A)))) + _gem.mmd_tolerance(gem, Pc, A)
+        if dist in ("hellinger", "chi2"):
+            # their closed forms (1 - sum sqrt(.), (sum ./. + 1) / 2) take the rows of the clipped matrix as they are, summing
+            # to 1 + O(K * epsilon): a fourth reading, O(K * epsilon) away from the other three even when those coincide
+            # (a single sample: every reading gives exactly 0, the closed form -(K - 1) * epsilon)
+            slack += 4 * K * eps * scale
+        ctx.count("clipped_band_compared")
+        ctx.count("clipped_band_compared:" + dist)
+        if (hi - lo) <= 0.05 * max(abs(hi), 1e-300):
+            ctx.count("clipped_band_narrow")           # the three readings agree to 5 %: a decisive comparison
+        ctx.distinct("clipped", type(gem).__name__, bool(gem.ovo), P.shape, P.tobytes().hex()[:64], eps)
+        if not (lo - slack <= value <= hi + slack):
+            ctx.violation("evaluate-vs-reference", f"score-outside-band-on-clipped-predictions/{dist}-{'ovo' if gem.ovo else 'ova'}",
+                          observed={"score": value, "epsilon": eps, "P": P, "class": type(gem).__name__},
+                          expected={"references(clipped, clipped+renormalised, as given)": refs, "slack": slack},
+                          detail={"A": A, "mode": self.mode})
 
     def close(self):
         self.tap.close()
@@ -258,6 +315,19 @@ def run_case(case, ctx, st):
                     if not abs(v32 - ref32) <= 2e-3 * max(1.0, abs(ref32)):
                         ctx.violation("evaluate-vs-reference", f"score-mismatch-on-float32-predictions/{dist32}-{'ovo' if gem.ovo else 'ova'}",
                                       observed={"score": v32, "min_entry": float(P64.min()), "P": P64}, expected={"reference": ref32, "rtol": 2e-3})
+            if idx % 3 == 1 and isinstance(desc, dict) and P.shape[0] * P.shape[1] <= 400:
+                # saturated and one-hot predictions under a user clipping bound (1e-4 .. 0.03): rows of the clipped matrix
+                # no longer sum to one, so every shortcut that silently assumes they do shows here (see State.clipped_band)
+                rng3 = gen.rng_for(case["seed"], ID, "saturated", idx)
+                gem3 = gen.gemini_from_desc(dict(desc, epsilon=float(10 ** rng3.uniform(-4, -1.5))))
+                n3, K3 = P.shape
+                if rng3.random() < 0.5:
+                    P3 = np.zeros((n3, K3))
+                    P3[np.arange(n3), rng3.integers(0, K3, size=n3)] = 1.0
+                else:
+                    P3, _ = gen.predictions(rng3, n3, K3, float(rng3.choice([10.0, 20.0, 30.0])))
+                ctx.count("saturated_user_epsilon_calls")
+                gem3(P3, A)
             if idx % 4 == 1:
                 # the same GEMINI object and the same array objects, refreshed in place (a preallocated prediction buffer,
                 # an in-place finite difference): what __call__ returns is the score of what the arrays hold NOW
